@@ -38,6 +38,7 @@ def frame_a():
         "z": [3.0, 1.0, 2.0, 5.0, 4.0, 7.0, 6.0, 0.5, np.nan, 1.5, 3.5, 4.5],
         "f": ["b", "a", "c", "a", "b", "c", "c", "a", "b", "b", "a", "c"],
         "g": ["g1", "g2", "g1", "g3", "g2", "g3", "g1", "g2", "g3", "g1", "g2", "g3"],
+        "xc": [-3.0, -2.0, -1.0, 0.0, 1.0, 2.0, 3.0, -1.5, 1.5, -0.5, 0.5, 0.0],  # mean exactly zero
     })
 
 
@@ -48,6 +49,7 @@ def frame_b():
         "z": [0.1, 0.5, 0.3, 0.2, 0.9, np.nan, 0.4, 0.8, 0.6],
         "f": ["d", "a", "b", "d", "a", "b", "b", "d", "a"],
         "g": ["g2", "g4", "g2", "g4", "g5", "g5", "g2", "g4", "g5"],
+        "xc": [4.0, -4.0, 2.0, -2.0, 1.0, -1.0, 0.0, 0.5, -0.5],
     })
 
 
@@ -58,6 +60,7 @@ SPECS = [
     ("y ~ scale(x) + poly(z, 2) + (center(x)|g)", "a"),
     ("y ~ bs(x, df=4) + poly(z, 2) + C(f, Sum) + (f|g)", "b"),
     ("y ~ 0 + z + scale(x):f + (scale(x)|g)", "a"),
+    ("y ~ center(xc) + scale(xc):f + (center(xc)|g)", "a"),
 ]
 
 
@@ -93,6 +96,7 @@ def eval_frame0(which, j):
         nd = df.iloc[[1, 2, 4, 6]].reset_index(drop=True).copy()
         nd["x"] = nd["x"] * 3 + 10
         nd["z"] = nd["z"] + 2
+        nd["xc"] = nd["xc"] * 2 + 5
         return nd
     nd = df.iloc[[2, 4, 6]].reset_index(drop=True).copy()
     nd["f"] = [nd["f"][0], "zz", nd["f"][2]]
